@@ -122,8 +122,10 @@ def tree_hash():
     h = hashlib.sha256()
     for root in (os.path.join(REPO, 'src'), os.path.join(REPO, 'include'), os.path.join(VERIF, 'harness'), os.path.join(VERIF, 'translator')):
         for dp, dn, fn in sorted(os.walk(root)):
-            dn.sort()
+            dn[:] = sorted(x for x in dn if x != '__pycache__')
             for f in sorted(fn):
+                if f.endswith('.pyc'):
+                    continue
                 p = os.path.join(dp, f)
                 h.update(p.encode())
                 with open(p, 'rb') as fh:
@@ -182,7 +184,7 @@ def ensure_translation():
         return d
     tr = os.path.join(VERIF, 'translator', 'cxx2coq.py')
     if os.path.exists(tr):
-        r = sh([sys.executable, tr, '--out', d], timeout=600)
+        r = sh([sys.executable, '-B', tr, '--out', d], timeout=600)
         if r.returncode != 0:
             raise BuildError('translator failed:\n' + (r.stdout + r.stderr)[-4000:])
     open(stamp, 'w').write('ok')
